@@ -128,7 +128,8 @@ def generate(rng, seed, part):
             nxt += k
         elif r < 0.27:
             ops.append({"op": "transform", "how": rng.choice(["merge", "imul", "idiv", "set_dtype", "normalize",
-                                                              "set_meta", "iadd_self", "set_adaptive_off", "imul_near_one"]),
+                                                              "set_meta", "iadd_self", "set_adaptive_off", "imul_near_one",
+                                                              "set_missed", "set_missed", "set_contents"]),
                         "arg": rng.randrange(64)})
         elif r < 0.40:
             ops.append({"op": "save", "path": rng.choice(PATHS), "via": rng.choice(["save_json", "to_json"]),
@@ -273,6 +274,20 @@ def transform(cfg, h, op):
             if isinstance(h, HistogramCollection) or not t.is_adaptive():
                 return False
             t.set_adaptive(False)
+        elif how == "set_missed":
+            # the missed counters assigned through their property setters (whole, fractional, unknown)
+            if t.ndim != 1 or not t.keep_missed:
+                return False  # (a histogram that keeps no track of missed values has no counters to assign)
+            val = [3, 2.5, 0.25, math.nan, 0, 1e-12, 7.0][arg % 7]
+            which = ["underflow", "overflow", "inner_missed"][(arg >> 3) % 3]
+            setattr(t, which, val)
+        elif how == "set_contents":
+            # contents / squared errors assigned through their property setters
+            f = np.asarray(t.frequencies)
+            if (arg >> 3) % 2:
+                t.frequencies = (f * 2).tolist() if arg % 2 else f + 1
+            else:
+                t.errors2 = np.asarray(t.errors2) * 1.5 + 0.5 if np.dtype(t.dtype).kind == "f" else np.asarray(t.errors2) + 2
     return True
 
 
